@@ -195,6 +195,28 @@ def r2(prog, rep):
         rep.ob("R2", "circular (constant q): d dpsidr_r/dr == d2psidr2_r", e2.is_zero(), site, "residual " + e2.residual()[:160], key="circular/profile-2")
     except AlgError as e:
         rep.undecided("circular radial profile consistency not representable: %s" % e)
+    # quadratic safety factor q = a0 + a1 r^2 (closed form with a logarithm of nested radicals)
+    from ..alg import radical_rewrite
+    ctx3 = Context()
+    ex3 = ProfileEx2(prog, ctx3, "CircularEquilibrium")
+    x = ctx3.sym("x")
+    try:
+        p = ex3.profile("psi_r", x, ncoef=2)
+        dp = ex3.profile("dpsidr_r", x, ncoef=2)
+        d2p = ex3.profile("d2psidr2_r", x, ncoef=2)
+        R0, a0, a1 = ctx3.sym("self.user_options.R0"), ctx3.sym("a0"), ctx3.sym("a1")
+        S1, S2, S3 = ctx3.sym("sqrt[a1]"), ctx3.sym("sqrt[a0+a1*R0^2]"), ctx3.sym("sqrt[R0^2-x^2]")
+        ctx3.add_relation(S1, 2, a1, "radical base")
+        ctx3.add_relation(S2, 2, a0 + a1 * R0 ** 2, "radical base")
+        ctx3.add_relation(S3, 2, R0 ** 2 - x ** 2, "radical base")
+        bases = [(a1, S1), (a0 + a1 * R0 ** 2, S2), (R0 ** 2 - x ** 2, S3), (R0 ** 2, R0)]
+        rep.assume("circular, q = a0 + a1 r^2: a1 > 0, a0 + a1 R0^2 > 0, 0 <= r < R0 (real square roots)")
+        e1 = radical_rewrite(ctx3, p.diff("x") - dp, bases)
+        e2 = radical_rewrite(ctx3, dp.diff("x") - d2p, bases)
+        rep.ob("R2", "circular (q = a0 + a1 r^2): d psi_r/dr == dpsidr_r", e1.is_zero(), site, "residual " + e1.residual()[:160], key="circular/profile2-1")
+        rep.ob("R2", "circular (q = a0 + a1 r^2): d dpsidr_r/dr == d2psidr2_r", e2.is_zero(), site, "residual " + e2.residual()[:160], key="circular/profile2-2")
+    except AlgError as e:
+        rep.undecided("circular radial profile (two q coefficients) not representable: %s" % e)
 
 
 class ProfileEx(ClassEx):
@@ -244,6 +266,24 @@ class ProfileEx(ClassEx):
         if t == "coef_array[0]":
             return self.ctx.sym("a0")
         return super().on_subscript(node, value, env)
+
+
+class ProfileEx2(ProfileEx):
+    """q(x) = a0 + a1*x**2"""
+
+    def on_call(self, node, fname, args, kwargs, env):
+        if fname == "self.q":
+            return self.ctx.sym("a0") + self.ctx.sym("a1") * args[0] ** 2
+        if fname == "self.dqdr":
+            return 2 * self.ctx.sym("a1") * args[0]
+        return ClassEx.on_call(self, node, fname, args, kwargs, env)
+
+    def stmt(self, s, env):
+        if isinstance(s, ast.Assign) and isinstance(s.targets[0], ast.Tuple) and self.text(s.value) == "coef_array":
+            for i, e in enumerate(s.targets[0].elts):
+                env[e.id] = self.ctx.sym("a%d" % i)
+            return
+        return super().stmt(s, env)
 
 
 def r3(prog, rep):
@@ -335,6 +375,25 @@ def r5(prog, rep):
     # guard: leg regions are those whose kind contains a wall
     t = mod.code(block.test)
     rep.ob("R5", "reflection applies to regions with a wall end (legs); other regions use the core profile", t == K('"wall" in region["kind"]') and bool(block.orelse), f.site(block), t, key="reflect/guard")
+    # which psi a leg reflects about: the psi of the X-point the leg hangs on (topology tables)
+    from .. import tables
+    import re as _re
+    n_legs = 0
+    for t in tables.all_topologies(prog):
+        if "start_at_upper_outer" in t.name:
+            continue
+        for rname, reg in t.regions.items():
+            if "wall" not in reg["kind"]:
+                continue
+            pins = [x for fld in ("xpoints_at_start", "xpoints_at_end") for x in (reg.get(fld) or []) if x is not None]
+            idx = {m_.group(1) for x in pins for m_ in [_re.match(r"x_points\[(\d+)\]", repr(x))] if m_}
+            psi_txt = repr(reg.get("psi"))
+            m2 = _re.match(r"psi_sep\[(\d+)\]", psi_txt)
+            n_legs += 1
+            ok = len(idx) == 1 and m2 is not None and m2.group(1) in idx
+            rep.ob("R5", "%s: leg %s reflects the pressure about the psi of the X-point it is attached to" % (t.name, rname), ok, TOK,
+                   "reflection psi %s ; attached X-point(s) %s" % (psi_txt, sorted(idx)), key="reflect/leg-psi/%s/%s" % (t.name, rname))
+    rep.floor("R5.legs", n_legs, 16)
     lb = [x for x in effects.late_bound_closures(f.node, mod) if x[3].endswith(".pressure")]
     names = sorted({c for x in lb for c in x[2]})
     rep.ob("R5", "the stored pressure closure does not read loop-assigned names at call time", not lb, f.site(lam),
